@@ -70,6 +70,7 @@ type fnCtx struct {
 	specMode bool
 	allocNames map[string]bool
 	stackRefs  []string
+	immRefs    []string // objects holding the bytes of string values (immutable)
 	instFns    []*instFn
 	instSeen   map[string]bool
 	instTerms  []string
@@ -155,6 +156,9 @@ func (fc *fnCtx) bindParamsFresh() {
 		fc.vals[p] = v
 		fc.wfRefAssume(v, fc.entryAC, "")
 		fc.classAssume(v, p.Type(), "")
+		if isString(p.Type()) && v.k == kSlice {
+			fc.immRefs = append(fc.immRefs, v.t[0])
+		}
 		g.replay.params = append(g.replay.params, replayParam{p.Name(), p.Type(), v})
 	}
 	if recv := fc.fn.Signature.Recv(); recv != nil && len(fc.fn.Params) > 0 {
@@ -358,7 +362,7 @@ func (ws *writeScan) scan(fn *ssa.Function, blocks map[*ssa.BasicBlock]bool, sub
 					continue
 				}
 				if strings.HasPrefix(name, "(encoding/binary.") || name == "crypto/sha256.Sum256" || strings.HasPrefix(name, "(*sync.") || pureExternal(name) ||
-					strings.HasPrefix(callee.Name(), "spec_") || callee.Name() == "verifAssume" || callee.Name() == "verifAssert" || name == "bytes.Equal" || name == "errors.Is" {
+					isSpecName(callee.Name()) || callee.Name() == "verifAssume" || callee.Name() == "verifAssert" || name == "bytes.Equal" || name == "errors.Is" {
 					continue
 				}
 				var c *contract
@@ -1005,6 +1009,20 @@ func (g *gen) finishTop(fc *fnCtx) {
 	}
 	for i, rs := range fc.rets {
 		for k, e := range c.ensures {
+			if len(g.onlyPats) > 0 {
+				l0 := e.label
+				if l0 == "" {
+					l0 = fmt.Sprint(k + 1)
+				}
+				nm := fmt.Sprintf("post:%s:%s@%s", fnKeyQ(fc.fn), l0, rs.lbl(i))
+				keep := false
+				for _, p := range g.onlyPats {
+					keep = keep || globMatch(p, nm)
+				}
+				if !keep {
+					continue // outside the unit's scope: not even generated (saves the expansion of its spec functions)
+				}
+			}
 			sc := fc.specCtxRet(rs)
 			sc.prove = true
 			f, err := sc.boolExpr(e.expr)
